@@ -153,6 +153,20 @@ class Interp:
             raise Raised(st, self.exc_class(st.exc, env), ast.unparse(st.exc)[:120])
         elif t is ast.Try:
             self.try_(st, env)
+        elif t is ast.Delete:
+            for tgt in st.targets:
+                if isinstance(tgt, ast.Subscript) and not isinstance(tgt.slice, ast.Slice):
+                    base, idx = ev(tgt.value, env), ev(tgt.slice, env)
+                    if isinstance(base, Sym) or isinstance(idx, Sym) or not isinstance(base, (list, dict)):
+                        raise Unknown(f'del {ast.unparse(tgt)}')
+                    try:
+                        del base[idx]
+                    except (IndexError, KeyError) as ex:
+                        raise PyRaise(type(ex), st, str(ex))
+                elif isinstance(tgt, ast.Name):
+                    env.pop(tgt.id, None)
+                else:
+                    raise Unknown(f'del {ast.unparse(tgt)}')
         elif t is ast.Pass:
             return
         elif t is ast.Continue:
@@ -239,6 +253,11 @@ class Interp:
                 raise
             except Exception as ex:
                 raise Unknown(f'store {ast.unparse(tgt)}: {type(ex).__name__}: {ex}')
+        elif isinstance(tgt, ast.Attribute):
+            base = ev(tgt.value, env)
+            if tgt.attr not in getattr(type(base), '_model', ()):
+                raise Unknown(f'attribute store {ast.unparse(tgt)} on a non-model object')
+            setattr(base, tgt.attr, val)
         else:
             raise Unknown(f'assignment target {type(tgt).__name__}')
 
